@@ -408,6 +408,47 @@ Example C20_qualify_ex :
   /\ List.length (byLabel specs) = 3.
 Proof. vm_compute. repeat split; reflexivity. Qed.
 
+(** QualifyReferences (the foreign-key half of the realm path): byRef is keyed by (Qualifier, Name)
+    of the table specs after QualifyObjects.  The reference to a table of the realm is qualified
+    exactly when the table's block is; it does not depend on the order of the schemas / tables /
+    map deliveries; and the keys of byRef are pairwise distinct ("duplicate references" cannot be
+    returned for a realm whose (schema, table) pairs are distinct). *)
+Theorem C20_qualify_references_order_independent : forall specs specs' bl bl' target,
+  Permutation specs specs' ->
+  map_order bl (byLabel specs) -> map_order bl' (byLabel specs') ->
+  QualifyReferences_ref (QualifyObjects_over bl specs) target =
+  QualifyReferences_ref (QualifyObjects_over bl' specs') target.
+Proof. exact QualifyReferences_order_independent. Qed.
+Print Assumptions C20_qualify_references_order_independent.
+Theorem C20_qualify_references_match_blocks : forall specs bl target,
+  map_order bl (byLabel specs) -> In target specs ->
+  QualifyReferences_ref (QualifyObjects_over bl specs) target =
+  match qualifier_spec specs target with
+  | Some q => RefQualified q (q_label target)
+  | None => RefPlain (q_label target)
+  end.
+Proof.
+  exact (fun specs bl target M H =>
+    eq_trans (f_equal (fun r => QualifyReferences_ref r target) (QualifyObjects_over_spec bl specs M))
+             (QualifyReferences_ref_spec specs target H)).
+Qed.
+Print Assumptions C20_qualify_references_match_blocks.
+Theorem C20_qualify_references_no_duplicate : forall specs bl,
+  map_order bl (byLabel specs) -> NoDup specs ->
+  NoDup (map byRef_key (QualifyObjects_over bl specs)).
+Proof.
+  exact (fun specs bl M ND =>
+    eq_ind_r (fun r => NoDup (map byRef_key r)) (QualifyReferences_no_duplicate specs ND)
+             (QualifyObjects_over_spec bl specs M)).
+Qed.
+Print Assumptions C20_qualify_references_no_duplicate.
+Example C20_qualify_references_ex :
+  let specs := [QO 1 10; QO 2 10; QO 3 1; QO 3 11] in
+  map (QualifyReferences_ref (QualifyObjects_go specs)) [QO 2 10; QO 3 1; QO 3 11; QO 2 11]
+  = [RefQualified 2 10; RefQualified 3 1; RefPlain 11; RefPlain 11]
+  /\ QualifyReferences_ref (QualifyObjects_go specs) (QO 2 12) = RefMissing.
+Proof. vm_compute. split; reflexivity. Qed.
+
 (* REFUTED: "a reference to an object carries a qualifier exactly when the object's block does".
    specutil.ObjectRef only applies the pass-2 condition (same name in another schema); an object
    named like a schema whose name became a qualifier is written [enum "s3" "s1"] by pass 3 but
